@@ -67,3 +67,11 @@ Example C06_concrete_query_with_break :
   | None => False
   end.
 Proof. vm_compute. repeat split; reflexivity. Qed.
+
+(** Every accessor of the storage presents exactly `len` items (the bound written in the source of
+    iter, iter_mut, get_all_slices_mut (entities and columns), get_slice_entities, get_slice(_mut),
+    borrow_slice(_mut), borrow_component(_mut); DataPtr::slice/slice_mut return `len` items for every
+    element type), and the iterators step every column pointer at every item: translated on this run. *)
+Theorem C06_every_accessor_presents_len_items :
+  Forall (fun b => b = ExtrStorage.CBLen) ExtrStorage.accessor_bounds /\ ExtrStorage.iterators_step_every_column = true.
+Proof. split; [repeat constructor|reflexivity]. Qed.
